@@ -414,7 +414,7 @@ func init() {
 		Assumptions: []string{"Go regexp (RE2) is the regex semantics on both sides", "lenient zone (sets of different element kinds, sets with duplicates, stack depth 901..1100) only requires no panic and no 'true' across kinds"},
 		NumCases: func(tier string) int {
 			if tier == "thorough" {
-				return c06FixedCases + 150000
+				return c06FixedCases + 600000
 			}
 			return c06FixedCases + 400
 		},
